@@ -314,7 +314,7 @@ esl_mixgev_invcdf(double p, ESL_MIXGEV *mg)
   do {				/* bracket, right side */
     x2 = x2 + 2.*(x2-x1);
     f2 = esl_mixgev_cdf(x2, mg);
-  } while (f2 < p);		
+  } while (f2 < p && x2 < eslINFINITY); /* p above the largest cdf value (coefficients summing to 1-ulp): stop at +inf */		
 
   do {				/* bisection */
     xm = (x1+x2) / 2.;
